@@ -232,7 +232,7 @@ class C02(Property):
         if op == "read":
             return {"op": "read", "sess": sess, "path": rng.pick(PATHS),
                     "api": rng.pick(["read", "read", "Starfile", "read_id", "get_frame"]), "k": rng.randrange(4),
-                    "io": True, "hint": {"read": 2, "any": 5}}
+                    "scribble": rng.chance(0.4), "io": True, "hint": {"read": 2, "any": 5}}
         return {"op": "foreign_star", "path": rng.pick(PATHS), "blocks": self.gen_blocks(rng, cfg),
                 "layout": self.gen_layout(rng), "fmts": [rng.pick(FMT) for _ in range(5)]}
 
@@ -372,10 +372,10 @@ class C02(Property):
         def do():
             if api == "read":
                 fr, sp, _c = starfileio.Starfile.read(step["path"])
-                return list(fr), list(sp)
+                return fr, sp
             if api == "Starfile":
                 s = starfileio.Starfile(step["path"])
-                return list(s.frames), list(s.specifiers)
+                return s.frames, s.specifiers
             if api == "read_id":
                 fr, sp, _c = starfileio.Starfile.read(step["path"], data_id=k)
                 return [fr], [sp]
@@ -397,6 +397,22 @@ class C02(Property):
                 self.check_frames(world, frames, specs, want, "%s(%s)" % (api, path))
                 world.stats["judged_reads"] += 1
                 world.note(sha([list(map(str, f.columns)) for f in frames]))
+            if step.get("scribble"):
+                # what a read returns belongs to its caller, who goes on working on it in place; the next read of
+                # the file - by anyone in this process - must still return what the file holds
+                frames, specs = out.value
+                for f in (frames if isinstance(frames, list) else []):
+                    try:
+                        if len(f) and len(f.columns):
+                            f.iloc[:, 0] = -777
+                            f.drop(index=f.index[:1], inplace=True)
+                        f.rename(columns={c: "scribbled_%s" % c for c in f.columns}, inplace=True)
+                    except Exception:  # noqa: BLE001 - the caller's own edits are not under test
+                        pass
+                for lst in (frames, specs):
+                    if isinstance(lst, list):
+                        del lst[:]
+                world.probes["caller_edits_read_result_in_place"] += 1
         elif not out.faulted and exp is not None:
             raise Violation("read_raised", "read:%s:%s" % (api, out.describe()),
                             "fault-free %s of a STAR file with acknowledged content raised %r\n%s" % (api, out.exc, out.tb))
